@@ -27,6 +27,8 @@ def family():
 
 
     yield from F.fam_guarded_start()
+    for label, prog, meta in F.fam_clone_guards():
+        yield label, prog, dict(clones=True)      # guards (plain and NEGATED) inside cloned moot framers
     for label, prog, meta in F.fam_markers_guarded():
         yield label, prog, dict(marks=True)
     for label, prog, meta in F.fam_markers_refused_aux():
@@ -35,6 +37,9 @@ def family():
 
 def on_prog(p, idx, label, prog, meta):
     from mc.flo import explore, monitors, families as F, lang, conform
+    if meta.get("clones"):
+        runner.explore_and_check(p, idx, label, prog, mons=(), cmp=runner.cmp_full(fields=(0, 1, 3, 4, 5, 6, 7)), depth=6, sample_every=7)
+        return
     if meta.get("marks"):
         # refused attempts whose conditions are marker needs: marks (reset only by transit actions) must equal the reference's
         runner.explore_and_check(p, idx, label, prog, mons=(), cmp=runner.cmp_full(fields=(0, 1, 3, 4, 5)),
